@@ -24,14 +24,38 @@ decreasing_by
     | omega
     | (have := Ty.w_lt_wl ‹_ ∈ _›; omega)
 
+/-- The fragment of `C03_trans_alias_partial` (transitivity, stage 4), shape only: hereditarily no Unit; Struct (members of any nesting) only
+    with the Struct-from-Hash rule off; the type list of a Tuple fits an int64 length (every Go slice does).  Everything else of the model is
+    inside: the two built-in recursive aliases Data and RichData, Iterable, all scalar and collection types.  (Defined here, upstream of
+    `Ty.Frag`, because C01's fragment asks it of the content of a `Type[T]`; transitivity on it is `transD`, Proofs/LatTransDMain.) -/
+def Ty.TA (sfh : Bool) (t : Ty) : Prop :=
+  match t with
+  | .unit => False
+  | .struct ms => sfh = false ∧ ∀ m, ∀ (_ : m ∈ ms), Ty.TA sfh m.2.2
+  | .tuple ts _ => ((ts.length : Int) ≤ I64.max) ∧ ∀ t', ∀ (_ : t' ∈ ts), Ty.TA sfh t'
+  | .array e _ => Ty.TA sfh e
+  | .hash k v _ => Ty.TA sfh k ∧ Ty.TA sfh v
+  | .variant ts => ∀ t', ∀ (_ : t' ∈ ts), Ty.TA sfh t'
+  | .optional t' | .notUndef t' | .sensitive t' | .typ t' | .iterable t' => Ty.TA sfh t'
+  | _ => True
+termination_by t.w
+decreasing_by
+  all_goals simp_wf
+  all_goals (try simp only [Ty.w, Ty.wl, Ty.wm] at *)
+  all_goals first
+    | omega
+    | (have := Ty.w_lt_wl ‹_ ∈ _›; omega)
+    | (have := Ty.w_lt_wm ‹_ ∈ _›; omega)
+
 /-- Fragment of `C01_sound_partial`: hereditarily no `Iterable[..]` (its instance rule is an assignability question about an inferred
     type, and is genuinely unsound); with the exempt rule switched on (`sfh = true`) also no `Struct` (the rule
     lets a Struct accept a Hash type on key type and size alone — the stated exclusion of C01).  `Type[T]` is allowed; its content `T` must lie in the fragment of
-    transitivity (`Ty.TF`, added as a separate condition `Ty.TypTF`), because soundness for `Type[..]` IS transitivity (C03). -/
+    transitivity, because soundness for `Type[..]` IS transitivity (C03) — since stage 4 of C03 that fragment is `Ty.TA sfh`: every type of
+    the model but Unit (Struct only with the rule off), Iterable and the aliases included. -/
 def Ty.Frag (t : Ty) (sfh : Bool) : Prop :=
   match t with
   | .iterable _ => False
-  | .typ t' => Ty.TF t'
+  | .typ t' => Ty.TA sfh t'
   | .array e _ => Ty.Frag e sfh
   | .hash k v _ => Ty.Frag k sfh ∧ Ty.Frag v sfh
   | .tuple ts _ => ∀ t', ∀ (_ : t' ∈ ts), Ty.Frag t' sfh
@@ -84,37 +108,41 @@ theorem isPrefix_trans : ∀ (p q x : List Nat), isPrefix p q = true → isPrefi
         simp [isPrefix] at h1 h2 ⊢
         exact ⟨h1.1.trans h2.1, ih bs cs h1.2 h2.2⟩
 
-/-- side conditions of C01 on values: every type used as a value inside `v` lies in the transitivity fragment and is well-formed, and
-    container lengths are within int64 (Go's `len` is an `int`; the model's lists are unbounded) -/
-inductive Val.TyOK (cfg : Cfg) : Val → Prop
-  | undef : Val.TyOK cfg .undef
-  | dflt : Val.TyOK cfg .dflt
-  | bool (b) : Val.TyOK cfg (.bool b)
-  | int (i) : Val.TyOK cfg (.int i)
-  | float (f) : Val.TyOK cfg (.float f)
-  | str (s) : Val.TyOK cfg (.str s)
-  | regexp (s) : Val.TyOK cfg (.regexp s)
-  | binary (b) : Val.TyOK cfg (.binary b)
-  | tspan (n) : Val.TyOK cfg (.tspan n)
-  | typ (t) : t.TF → Ty.WF cfg t → Val.TyOK cfg (.typ t)
-  | obj (p) : Val.TyOK cfg (.obj p)
-  | sensitive (v) : Val.TyOK cfg v → Val.TyOK cfg (.sensitive v)
-  | array (vs) : ((vs.length : Int) ≤ I64.max) → (∀ x ∈ vs, Val.TyOK cfg x) → Val.TyOK cfg (.array vs)
-  | hash (es : List (Val × Val)) : ((es.length : Int) ≤ I64.max) → (∀ e ∈ es, Val.TyOK cfg e.1) → (∀ e ∈ es, Val.TyOK cfg e.2) →
-      Val.TyOK cfg (.hash es)
+/-- side conditions of C01 on values: every type used as a value inside `v` lies in the transitivity fragment (`Ty.TA sfh`: everything but
+    Unit, Struct only with the rule off) and is well-formed, and container lengths are within int64 (Go's `len` is an `int`; the model's
+    lists are unbounded) -/
+inductive Val.TyOKS (cfg : Cfg) (sfh : Bool) : Val → Prop
+  | undef : Val.TyOKS cfg sfh .undef
+  | dflt : Val.TyOKS cfg sfh .dflt
+  | bool (b) : Val.TyOKS cfg sfh (.bool b)
+  | int (i) : Val.TyOKS cfg sfh (.int i)
+  | float (f) : Val.TyOKS cfg sfh (.float f)
+  | str (s) : Val.TyOKS cfg sfh (.str s)
+  | regexp (s) : Val.TyOKS cfg sfh (.regexp s)
+  | binary (b) : Val.TyOKS cfg sfh (.binary b)
+  | tspan (n) : Val.TyOKS cfg sfh (.tspan n)
+  | typ (t) : t.TA sfh → Ty.WF cfg t → Val.TyOKS cfg sfh (.typ t)
+  | obj (p) : Val.TyOKS cfg sfh (.obj p)
+  | sensitive (v) : Val.TyOKS cfg sfh v → Val.TyOKS cfg sfh (.sensitive v)
+  | array (vs) : ((vs.length : Int) ≤ I64.max) → (∀ x ∈ vs, Val.TyOKS cfg sfh x) → Val.TyOKS cfg sfh (.array vs)
+  | hash (es : List (Val × Val)) : ((es.length : Int) ≤ I64.max) → (∀ e ∈ es, Val.TyOKS cfg sfh e.1) → (∀ e ∈ es, Val.TyOKS cfg sfh e.2) →
+      Val.TyOKS cfg sfh (.hash es)
 
-theorem Val.TyOK.elems {cfg : Cfg} {vs : List Val} (h : Val.TyOK cfg (.array vs)) : ∀ x ∈ vs, Val.TyOK cfg x := by
+theorem Val.TyOKS.elems {cfg : Cfg} {sfh : Bool} {vs : List Val} (h : Val.TyOKS cfg sfh (.array vs)) : ∀ x ∈ vs, Val.TyOKS cfg sfh x := by
   cases h with | array _ _ h => exact h
-theorem Val.TyOK.keys {cfg : Cfg} {es : List (Val × Val)} (h : Val.TyOK cfg (.hash es)) : ∀ e ∈ es, Val.TyOK cfg e.1 := by
+theorem Val.TyOKS.keys {cfg : Cfg} {sfh : Bool} {es : List (Val × Val)} (h : Val.TyOKS cfg sfh (.hash es)) : ∀ e ∈ es, Val.TyOKS cfg sfh e.1 := by
   cases h with | hash _ _ h _ => exact h
-theorem Val.TyOK.vals {cfg : Cfg} {es : List (Val × Val)} (h : Val.TyOK cfg (.hash es)) : ∀ e ∈ es, Val.TyOK cfg e.2 := by
+theorem Val.TyOKS.vals {cfg : Cfg} {sfh : Bool} {es : List (Val × Val)} (h : Val.TyOKS cfg sfh (.hash es)) : ∀ e ∈ es, Val.TyOKS cfg sfh e.2 := by
   cases h with | hash _ _ _ h => exact h
-theorem Val.TyOK.alen {cfg : Cfg} {vs : List Val} (h : Val.TyOK cfg (.array vs)) : (vs.length : Int) ≤ I64.max := by
+theorem Val.TyOKS.alen {cfg : Cfg} {sfh : Bool} {vs : List Val} (h : Val.TyOKS cfg sfh (.array vs)) : (vs.length : Int) ≤ I64.max := by
   cases h with | array _ h _ => exact h
-theorem Val.TyOK.hlen {cfg : Cfg} {es : List (Val × Val)} (h : Val.TyOK cfg (.hash es)) : (es.length : Int) ≤ I64.max := by
+theorem Val.TyOKS.hlen {cfg : Cfg} {sfh : Bool} {es : List (Val × Val)} (h : Val.TyOKS cfg sfh (.hash es)) : (es.length : Int) ≤ I64.max := by
   cases h with | hash _ h _ _ => exact h
-theorem Val.TyOK.inner {cfg : Cfg} {v : Val} (h : Val.TyOK cfg (.sensitive v)) : Val.TyOK cfg v := by
+theorem Val.TyOKS.inner {cfg : Cfg} {sfh : Bool} {v : Val} (h : Val.TyOKS cfg sfh (.sensitive v)) : Val.TyOKS cfg sfh v := by
   cases h with | sensitive _ h => exact h
+
+/-- the side condition for the rule-off relation under its former name (used by C19) -/
+abbrev Val.TyOK (cfg : Cfg) (v : Val) : Prop := Val.TyOKS cfg false v
 
 /-- "accepts Undef" is complete w.r.t. "undef is an instance": the test the NotUndef and Struct rules rely on -/
 theorem inst_undef_complete : ∀ (n : Nat) (b : Ty), b.w ≤ n → inst cfg sfh b .undef = true → asg cfg sfh b .undef = true := by
